@@ -109,6 +109,112 @@ def mini(e, env):
     raise Stop(type(e).__name__)
 
 
+def _module_consts(tree):
+    """simple module-level constants: NAME = <literal> / tuple of literals and earlier constants /
+    sum of such tuples"""
+    out = {}
+
+    def val(e):
+        if isinstance(e, ast.Constant):
+            return e
+        if isinstance(e, ast.Name) and e.id in out:
+            return out[e.id]
+        if isinstance(e, (ast.Tuple, ast.List)):
+            xs = [val(x) for x in e.elts]
+            if all(x is not None for x in xs):
+                return ast.Tuple(elts=xs, ctx=ast.Load())
+        if isinstance(e, ast.BinOp) and isinstance(e.op, ast.Add):
+            a, b = val(e.left), val(e.right)
+            if isinstance(a, ast.Tuple) and isinstance(b, ast.Tuple):
+                return ast.Tuple(elts=a.elts + b.elts, ctx=ast.Load())
+        return None
+    counts = {}
+    for st in tree.body:
+        if isinstance(st, ast.Assign) and len(st.targets) == 1 and isinstance(st.targets[0], ast.Name):
+            counts[st.targets[0].id] = counts.get(st.targets[0].id, 0) + 1
+    for st in tree.body:
+        if isinstance(st, ast.Assign) and len(st.targets) == 1 and isinstance(st.targets[0], ast.Name) and counts[st.targets[0].id] == 1:
+            v = val(st.value)
+            if v is not None:
+                out[st.targets[0].id] = v
+    return out
+
+
+def _const_fold(t):
+    """truth of a test made of literals only"""
+    for x in ast.walk(t):
+        if not isinstance(x, (ast.Constant, ast.Tuple, ast.List, ast.Compare, ast.BoolOp, ast.UnaryOp, ast.Load, ast.cmpop, ast.boolop, ast.unaryop, ast.expr_context)):
+            return None
+    try:
+        return bool(eval(compile(ast.fix_missing_locations(ast.Expression(body=copy.deepcopy(t))), '<fold>', 'eval'), {'__builtins__': {}}))
+    except Exception:
+        return None
+
+
+def installer_kinds(repo, call):
+    """what the installer does for this call: the set of constructor shapes ('binary', 'swapped',
+    'unary', 'nary', 'other:<text>') its surviving paths install, decided by walking the installer
+    with the call's (constant) arguments bound -- however the mode is encoded (flags, one constant)"""
+    fi = repo.module_funcs.get(('deferred', INSTALLER))
+    if fi is None:
+        return None
+    consts = _module_consts(repo.modules['deferred']['tree'])
+    a = fi.node.args
+    params = [x.arg for x in a.args]
+    defaults = dict(zip(params[len(params) - len(a.defaults):], a.defaults))
+    given = dict(zip(params, call.args))
+    for k in call.keywords:
+        if k.arg:
+            given[k.arg] = k.value
+    bind = {}
+    for prm in params:
+        v = given.get(prm, defaults.get(prm))
+        if v is None:
+            continue
+        if isinstance(v, ast.Name) and v.id in consts:
+            v = consts[v.id]
+        if isinstance(v, (ast.Constant, ast.Tuple)):
+            bind[prm] = copy.deepcopy(v)
+
+    class T(ast.NodeTransformer):
+        def visit_Name(self, n):
+            if isinstance(n.ctx, ast.Load) and n.id in consts and n.id not in params:
+                return copy.deepcopy(consts[n.id])
+            return n
+    body = T().visit(copy.deepcopy(fi.node))
+    ast.fix_missing_locations(body)
+    w = repo.walker(fold=_const_fold)
+    kinds = set()
+    nested = {n.name: n for n in ast.walk(fi.node) if isinstance(n, ast.FunctionDef) and n is not fi.node}
+    try:
+        paths = w.paths(body, bind=bind)
+    except Undecided:
+        return None
+    for p in paths:
+        if p.raises():
+            continue
+        for e in p.setattrs():
+            v = e.value
+            if isinstance(v, ast.Name) and v.id.startswith('<def ') and '@' in v.id and v.id[5:].split('@')[0] in nested:
+                v = ast.Name(id=v.id[5:].split('@')[0], ctx=ast.Load())
+            if isinstance(v, ast.Name) and v.id in nested:
+                rets = [r for r in ast.walk(nested[v.id]) if isinstance(r, ast.Return) and isinstance(r.value, ast.Call)]
+                kinds.add('nary' if any(call_name(r.value) == 'NaryExpr' for r in rets) else 'other:def %s' % v.id)
+            elif isinstance(v, ast.Lambda):
+                ps = [x.arg for x in v.args.args]
+                b = v.body
+                if isinstance(b, ast.Call) and call_name(b) == 'BinaryExpr' and len(b.args) == 3 and len(ps) == 2:
+                    pair = (canon(b.args[0]), canon(b.args[1]))
+                    kinds.add('binary' if pair == (ps[0], ps[1]) else 'swapped' if pair == (ps[1], ps[0]) else 'other:%s' % unparse(b))
+                elif isinstance(b, ast.Call) and call_name(b) == 'UnaryExpr' and len(ps) == 1:
+                    kinds.add('unary' if canon(b.args[0]) == ps[0] else 'other:%s' % unparse(b))
+                else:
+                    kinds.add('other:%s' % unparse(b)[:60])
+            else:
+                kinds.add('other:%s' % canon(v)[:60])
+    return kinds
+
+
 def run_body(stmts, env, calls):
     for s in stmts:
         if isinstance(s, ast.Assign) and len(s.targets) == 1 and isinstance(s.targets[0], ast.Name):
@@ -125,6 +231,7 @@ def run_body(stmts, env, calls):
                 kw[k.arg] = k.value.value if isinstance(k.value, ast.Constant) else canon(k.value)
             name = mini(c.args[1], env) if len(c.args) > 1 else None
             opexpr = canon(c.args[2]) if len(c.args) > 2 else None
+            kw['<call>'] = c
             calls.append((name, opexpr, kw, s.lineno))
         elif isinstance(s, ast.Expr) and isinstance(s.value, ast.Call) and isinstance(s.value.func, ast.Name) and s.value.func.id == 'setattr' and len(s.value.args) == 3:
             # installing something under a special-method name without going through _defer_method
@@ -257,17 +364,22 @@ def check_tables(ctx):
                     ok = ctx.violation(rule, fi, '%s installed as %s' % (st, name), 'Python looks this operator up as %s' % want, line, clause='a')
                 if opexpr != lp.target.id:
                     ok = ctx.violation(rule, fi, '%s bound to %s' % (st, opexpr), 'the method must be bound to the operator it is named after', line, clause='a')
+                kinds = installer_kinds(repo, kw['<call>']) if '<call>' in kw else None
+                shown = sorted(kinds) if kinds is not None else None
+                if not kinds or len(kinds) != 1:
+                    ok = ctx.undecided(rule, fi, '%s -> %s' % (st, shown), 'cannot tell which constructor the installer builds for this call', line, clause='a')
+                    continue
+                kind = next(iter(kinds))
                 if unary:
-                    if kw.get('is_binary') is not False:
-                        ok = ctx.violation(rule, fi, '%s is_binary=%s' % (st, kw.get('is_binary')), 'a unary operator must build a UnaryExpr', line, clause='a')
+                    if kind != 'unary':
+                        ok = ctx.violation(rule, fi, '%s builds %s' % (st, kind), 'a unary operator must build a UnaryExpr', line, clause='a', witness=True)
                 else:
-                    if kw.get('is_binary') is not True:
-                        ok = ctx.violation(rule, fi, '%s is_binary=%s' % (st, kw.get('is_binary')), 'a binary operator must build a BinaryExpr', line, clause='a')
-                    swapped = kw.get('swap_binary_arguments', False)
-                    if reflected and swapped is not True:
-                        ok = ctx.violation('R9-reflected-swap', fi, '%s swap_binary_arguments=%s' % (st, swapped), 'a reflected method receives (right operand, left operand): the operands must be swapped back', line, clause='b')
-                    if not reflected and swapped is True:
-                        ok = ctx.violation('R9-reflected-swap', fi, '%s swap_binary_arguments=True' % st, 'a plain binary method must not swap its operands', line, clause='b')
+                    if kind not in ('binary', 'swapped'):
+                        ok = ctx.violation(rule, fi, '%s builds %s' % (st, kind), 'a binary operator must build a BinaryExpr', line, clause='a', witness=True)
+                    elif reflected and kind != 'swapped':
+                        ok = ctx.violation('R9-reflected-swap', fi, '%s builds BinaryExpr(A, B, op)' % st, 'a reflected method receives (right operand, left operand): the operands must be swapped back', line, clause='b', witness=True)
+                    elif not reflected and kind == 'swapped':
+                        ok = ctx.violation('R9-reflected-swap', fi, '%s builds BinaryExpr(B, A, op)' % st, 'a plain binary method must not swap its operands', line, clause='b', witness=True)
                 if ok:
                     ctx.holds(rule, fi, '%s -> %s%s' % (st, name, ' (operands swapped back)' if reflected else ''), 'Python special-method name', line, clause='a')
     ctx.unit('operators', nops)
@@ -302,14 +414,18 @@ def check_tables(ctx):
             ctx.holds(rule, fi, "%s installed as n-ary selector bound to %s()" % (nm, nm), 'named method, own function', fi.node.lineno, clause='a')
         else:
             # a call that names the selector but binds another function / another arity is a witness
-            wrong = None
+            wrong = right = None
             for c in ast.walk(fi.node):
                 if isinstance(c, ast.Call) and canon(c.func) == INSTALLER and len(c.args) >= 3 and isinstance(c.args[1], ast.Constant) and c.args[1].value == nm:
                     kw = {k.arg: k.value for k in c.keywords if k.arg}
-                    flags_ok = isinstance(kw.get('is_nary'), ast.Constant) and kw['is_nary'].value is True and isinstance(kw.get('is_binary'), ast.Constant) and kw['is_binary'].value is False
+                    flags_ok = installer_kinds(repo, c) == {'nary'}
                     if canon(c.args[2]) != nm or not flags_ok:
                         wrong = c
-            if wrong is not None:
+                    else:
+                        right = c
+            if right is not None and wrong is None:
+                ctx.holds(rule, fi, "%s installed as n-ary selector bound to %s()" % (nm, nm), 'named method, own function; the installer builds NaryExpr for this call', right.lineno, clause='a')
+            elif wrong is not None:
                 ctx.violation(rule, fi, stmt_text(wrong)[:120], 'the %s selector is not installed as an n-ary method bound to its own function' % nm, wrong.lineno, clause='a', witness=True)
             else:
                 ctx.undecided(rule, fi, nm, 'cannot see how the %s selector is installed (not the call %s(cls, %r, %s, is_binary=False, is_nary=True))' % (nm, INSTALLER, nm, nm), fi.node.lineno, clause='a')
@@ -349,6 +465,31 @@ def check_constructors(ctx, nts):
                 continue
             params = [a.arg for a in v.args.args]
             body = v.body
+            builds_binary = isinstance(body, ast.Call) and call_name(body) == 'BinaryExpr'
+            builds_unary = isinstance(body, ast.Call) and call_name(body) == 'UnaryExpr'
+            flags = 'is_binary' in gt or 'not is_binary' in gt
+            if not flags and (builds_binary or builds_unary):
+                # the mode is not told by the two flags: the call sites decide which lambda a table
+                # gets (installer_kinds in check_tables); here only the shapes are judged
+                if builds_binary:
+                    a0, a1 = (canon(body.args[0]), canon(body.args[1])) if len(body.args) == 3 else (None, None)
+                    swap = (a0, a1) == (params[1], params[0]) if len(params) == 2 else False
+                    st = '%s branch: lambda %s: %s' % ('swap' if swap else 'plain', ', '.join(params), unparse(body))
+                    if st not in seen:
+                        seen.add(st)
+                        if len(params) == 2 and len(body.args) == 3 and {a0, a1} == set(params) and canon(body.args[2]) == 'op':
+                            ctx.holds(rule, fi, st, 'left / right operands are the two parameters; which table gets which order is decided at the call sites', e.lineno, clause='b')
+                        else:
+                            ctx.violation(rule, fi, st, 'a binary method must build BinaryExpr(A, B, op) or BinaryExpr(B, A, op)', e.lineno, clause='b')
+                else:
+                    st = 'unary branch: lambda %s: %s' % (', '.join(params), unparse(body))
+                    if st not in seen:
+                        seen.add(st)
+                        if [canon(x) for x in body.args] == [params[0], 'op']:
+                            ctx.holds(rule, fi, st, 'UnaryExpr(operand, op)', e.lineno, clause='b')
+                        else:
+                            ctx.violation(rule, fi, st, 'expected UnaryExpr(A, op)', e.lineno, clause='b')
+                continue
             if 'is_binary' in gt:
                 swap = 'swap_binary_arguments' in gt
                 st = '%s branch: lambda %s: %s' % ('swap' if swap else 'plain', ', '.join(params), unparse(body))
